@@ -124,6 +124,14 @@ def programs(prep):
         clsT = "class T { @tracked public qubit q; public constructor() -> T = default; public function go() -> void { %s } }\n" % g1
         progs.append(Prog("stale-handle-then-tracked-field:%s,%s" % (h0, h1), leak + clsT + "function main() -> void { %squbit s = mk(); %s T t = new T(); t.go(); echo(\"e\"); }" % (pad, s0),
                           [(None, [h0]), ("T.q", [h1])], 1))
+    # a tracked field whose object is kept alive only by a dropped cycle of plain objects: it ends when the collector reclaims the cycle
+    # (at the latest in the collection execute() performs before it returns), and that end counts like any other
+    for h in HIST:
+        fbody2, _ = hist_stmts("this.q", h, prep)
+        clsC = ("class T { @tracked public qubit q; public constructor() -> T = default; public function go() -> void { %s } }\n"
+                "class Nd { public Nd next; public T held; public constructor() -> Nd { this.next = null; this.held = null; } }\n") % fbody2
+        progs.append(Prog("field-owned-by-dropped-cycle:%s" % h, clsC + "function main() -> void { %sNd a = new Nd(); Nd b = new Nd(); a.next = b; b.next = a; a.held = new T(); a.held.go(); a = null; b = null; echo(\"e\"); }" % pad,
+                          [("T.q", [h])], 1))
     progs.append(Prog("array-measure-all", "function main() -> void { %s@tracked qubit[2] r; %s(r[0]); %s(r[1]); measure r; }" % (pad, prep or "z", prep or "z"), [("qubit[] r", ["M", "M"])]))
     progs.append(Prog("untracked", "function main() -> void { qubit q; measure q; echo(\"e\"); }", [], 1))
     return progs
@@ -272,7 +280,7 @@ def main(tier):
                 # all measurements return 1: wrap expected()
                 base = p.expected
                 p.expected = (lambda b: (lambda outs: b([1] * len(outs))))(base)
-        sel = ps if tier == "thorough" else [p for p in ps if p.name.split(":")[0] in ("main", "for2", "helper2", "field-overwrite", "field-null", "two-sites", "array-measure-all", "block", "untracked", "field-reuse", "local-after-release", "borrow-array-after", "borrow-qubit", "stale-handle-then-tracked", "stale-handle-then-tracked-field") or p.name.startswith("array:M")]
+        sel = ps if tier == "thorough" else [p for p in ps if p.name.split(":")[0] in ("main", "for2", "helper2", "field-overwrite", "field-null", "two-sites", "array-measure-all", "block", "untracked", "field-reuse", "local-after-release", "borrow-array-after", "borrow-qubit", "stale-handle-then-tracked", "stale-handle-then-tracked-field", "field-owned-by-dropped-cycle") or p.name.startswith("array:M")]
         modes = [("none", None, None)] + [("flag", n, None) for n in (1, 2, 3)] + [("ann", None, n) for n in (1, 2, 3)] + [("both-eq", 2, 2), ("both-diff", 3, 2), ("both-diff", 1, 3), ("both-diff", 2, 1)]
         echos = [None, "auto", "all", "none"]
         for p in sel:
